@@ -115,7 +115,7 @@ func (u *memoryManagementUnit) fetchCacheLine(addr int32) []int8 {
 
 func (u *memoryManagementUnit) pushLineToL3(addr comp.AlignedAddress, line []int8) {
 	addr -= addr % l3CacheLineSize
-	evicted := u.l3.PushLine(addr, line)
+	victim := u.l3.PushLineWithEvictionWarning(addr, line)
 	for i, pending := range u.pendings {
 		if pending[0] == int32(addr) {
 			if len(u.pendings) == 0 {
@@ -126,10 +126,12 @@ func (u *memoryManagementUnit) pushLineToL3(addr comp.AlignedAddress, line []int
 			break
 		}
 	}
-	if len(evicted) == 0 {
+	if victim == nil {
 		return
 	}
-	u.writeToMemory(addr, line)
+	// Write back the evicted line
+	u.l3.EvictCacheLine(victim.Boundary[0])
+	u.writeToMemory(victim.Boundary[0], victim.Data)
 }
 
 func (u *memoryManagementUnit) writeToL3(addr int32, data []int8) {
